@@ -79,9 +79,10 @@ theorem valueFromAST_var (s : Schema) (t : GType) (x : String) (loc : Loc) (vars
   simp only [optLitDepth, litDepth, iter]
   cases t <;> simp [fromASTStep]
 
-/-- premise on an argument literal about to be normalised at type `t` -/
+/-- premise on an argument literal about to be normalised: its Int tokens have the lexer's shape. (Validity for the
+type is NOT a premise any more: `tryExtract` checks it before extracting, 4210b3d.) -/
 def LitOK (s : Schema) (t : GType) (v : Value) : Prop :=
-  hasVars v = false → canonInts v = true ∧ isValidLiteralValue s t (some v) = true
+  hasVars v = false → canonInts v = true
 
 theorem tryExtract_entries (s : Schema) (st : NState) (v : Value) (t : GType) :
     (∃ es, (tryExtract s st v t).2.entries = st.entries ++ es) ∧ (tryExtract s st v t).2.taken = st.taken := by
@@ -92,7 +93,9 @@ theorem tryExtract_entries (s : Schema) (st : NState) (v : Value) (t : GType) :
     · exact ⟨⟨[], by simp⟩, rfl⟩
     · split
       · exact ⟨⟨[], by simp⟩, rfl⟩
-      · exact ⟨⟨_, rfl⟩, rfl⟩
+      · split
+        · exact ⟨⟨[], by simp⟩, rfl⟩
+        · exact ⟨⟨_, rfl⟩, rfl⟩
 
 theorem tryExtract_entriesOK (s : Schema) (st : NState) (v : Value) (t : GType)
     (h : EntriesOK s st.entries) (hl : LitOK s t v) : EntriesOK s (tryExtract s st v t).2.entries := by
@@ -102,14 +105,17 @@ theorem tryExtract_entriesOK (s : Schema) (st : NState) (v : Value) (t : GType)
   · rename_i hv
     split
     · exact h
-    · split
+    · rename_i hval
+      split
       · exact h
-      · intro e he
-        rcases List.mem_append.mp he with he | he
-        · exact h e he
-        · simp only [List.mem_singleton] at he; subst he
-          have hv' : hasVars v = false := by simpa using hv
-          exact ⟨hv', (hl hv').1, (hl hv').2⟩
+      · split
+        · exact h
+        · intro e he
+          rcases List.mem_append.mp he with he | he
+          · exact h e he
+          · simp only [List.mem_singleton] at he; subst he
+            have hv' : hasVars v = false := by simpa using hv
+            exact ⟨hv', hl hv', by simpa using hval⟩
 
 theorem tryExtract_namesOK (s : Schema) (st : NState) (v : Value) (t : GType) (h : NamesOK st) :
     NamesOK (tryExtract s st v t).2 := by
@@ -120,25 +126,27 @@ theorem tryExtract_namesOK (s : Schema) (st : NState) (v : Value) (t : GType) (h
     · exact h
     · split
       · exact h
-      · obtain ⟨hfresh, c', hc1, hc2, hc3⟩ := nextName_spec st.taken st.counter
-        refine ⟨?_, ?_⟩
-        · intro e he
-          rcases List.mem_append.mp he with he | he
-          · obtain ⟨h1, c0, h2, h3⟩ := h.1 e he
-            exact ⟨h1, c0, by simp only; omega, h3⟩
-          · simp only [List.mem_singleton] at he; subst he
-            exact ⟨hfresh, c', hc2, hc3⟩
-        · simp only [List.map_append, List.map_cons, List.map_nil]
-          apply List.nodup_append.mpr
-          refine ⟨h.2, by simp, ?_⟩
-          intro a ha b hb
-          simp only [List.mem_singleton] at hb; subst hb
-          obtain ⟨e, he, rfl⟩ := List.mem_map.mp ha
-          obtain ⟨_, c0, h2, h3⟩ := h.1 e he
-          rw [h3, hc3]
-          intro e'
-          have := synthName_inj e'
-          omega
+      · split
+        · exact h
+        · obtain ⟨hfresh, c', hc1, hc2, hc3⟩ := nextName_spec st.taken st.counter
+          refine ⟨?_, ?_⟩
+          · intro e he
+            rcases List.mem_append.mp he with he | he
+            · obtain ⟨h1, c0, h2, h3⟩ := h.1 e he
+              exact ⟨h1, c0, by simp only; omega, h3⟩
+            · simp only [List.mem_singleton] at he; subst he
+              exact ⟨hfresh, c', hc2, hc3⟩
+          · simp only [List.map_append, List.map_cons, List.map_nil]
+            apply List.nodup_append.mpr
+            refine ⟨h.2, by simp, ?_⟩
+            intro a ha b hb
+            simp only [List.mem_singleton] at hb; subst hb
+            obtain ⟨e, he, rfl⟩ := List.mem_map.mp ha
+            obtain ⟨_, c0, h2, h3⟩ := h.1 e he
+            rw [h3, hc3]
+            intro e'
+            have := synthName_inj e'
+            omega
 
 /-- **one extraction is transparent**: under the final variable map the (possibly replaced) value evaluates to what
 the original literal evaluates to under the request's own variables -/
@@ -153,6 +161,11 @@ theorem tryExtract_transparent (s : Schema) (hcc : customLti s) (hks : KeySound 
   · simp only [hv, if_true]; exact huser hv
   · have hv' : hasVars v = false := by simpa using hv
     simp only [hv', Bool.false_eq_true, if_false] at hre ⊢
+    by_cases hval : isValidLiteralValue s t (some v) = true
+    case neg =>
+      simp only [hval, Bool.not_false, if_true]
+      exact valueFromAST_novars s t (some v) vars' vars hv'
+    simp only [hval, Bool.not_true, Bool.false_eq_true, if_false] at hre ⊢
     by_cases hn : (valueFromAST s t (some v) []).isNull = true
     · simp only [hn, if_true]
       exact valueFromAST_novars s t (some v) vars' vars hv'
@@ -168,7 +181,7 @@ theorem tryExtract_transparent (s : Schema) (hcc : customLti s) (hks : KeySound 
       | none =>
         simp only [hfind] at hre ⊢
         rw [valueFromAST_var, hre ⟨_, t, v⟩ (by simp)]
-        exact (lti_agree s hcc t v vars hv' (hl hv').1 (hl hv').2).2
+        exact (lti_agree s hcc t v vars hv' (hl hv') hval).2
 
 /-! ## the argument list of one field -/
 
@@ -412,5 +425,112 @@ theorem normList_namesOK (s : Schema) : ∀ (xs : List Selection) (parent : Stri
     obtain ⟨h3, h4⟩ := normList_namesOK s xs parent _ h1
     exact ⟨h3, by rw [h4, h2]⟩
 end
+
+/-! ## the user's variables: evaluation only looks at the variables a literal mentions -/
+
+def optVars : Option Value → List String
+  | none => []
+  | some l => valueVars l
+
+theorem valueVars_mem_list {x : String} {v : Value} {ls : List Value} (hv : v ∈ ls) (hx : x ∈ valueVars v) :
+    x ∈ valuesVars ls := by
+  induction ls with
+  | nil => cases hv
+  | cons y ys ih =>
+    simp only [valuesVars, List.mem_append]
+    rcases List.mem_cons.mp hv with rfl | hv'
+    · exact Or.inl hx
+    · exact Or.inr (ih hv')
+
+theorem valueVars_litLookup {x : String} {fs : List ObjField} {k : String} {v : Value}
+    (hl : litLookup fs k = some v) (hx : x ∈ valueVars v) : x ∈ fieldsVars fs := by
+  induction fs with
+  | nil => cases hl
+  | cons f fs ih =>
+    obtain ⟨nm, w, l⟩ := f
+    simp only [fieldsVars, List.mem_append]
+    simp only [litLookup] at hl
+    cases hl' : litLookup fs k with
+    | some w' =>
+      rw [hl'] at hl; simp only [Option.some.injEq] at hl; subst hl
+      exact Or.inr (ih hl')
+    | none =>
+      rw [hl'] at hl
+      simp only [ObjField.name, ObjField.value] at hl
+      by_cases hk : (nm.value == k) = true
+      · simp only [hk, if_true, Option.some.injEq] at hl; subst hl; exact Or.inl hx
+      · simp [hk] at hl
+
+theorem fromASTStep_congr (s : Schema) (vars1 vars2 : Vars) (f g : GType → Option Value → JVal)
+    (ih : ∀ t l, (∀ x ∈ optVars l, lookupD vars1 x = lookupD vars2 x) → f t l = g t l) :
+    ∀ t l, (∀ x ∈ optVars l, lookupD vars1 x = lookupD vars2 x) →
+      fromASTStep s vars1 f t l = fromASTStep s vars2 g t l := by
+  intro t
+  induction t with
+  | nonNull t iht =>
+    intro l h
+    cases l with
+    | none => rfl
+    | some l =>
+      cases l with
+      | var x loc => simp only [fromASTStep]; exact h x (by simp [optVars, valueVars])
+      | _ => simp only [fromASTStep]; exact iht _ h
+  | list t iht =>
+    intro l h
+    cases l with
+    | none => rfl
+    | some l =>
+      cases l with
+      | var x loc => simp only [fromASTStep]; exact h x (by simp [optVars, valueVars])
+      | list ls loc =>
+        simp only [fromASTStep]
+        rw [map_congr' _ _ ls (fun v hv => iht (some v) (fun x hx => h x (by
+          simp only [optVars, valueVars] at hx ⊢; exact valueVars_mem_list hv hx)))]
+      | _ => simp only [fromASTStep]; rw [iht _ h]
+  | named n =>
+    intro l h
+    cases l with
+    | none => rfl
+    | some l =>
+      cases l with
+      | var x loc => simp only [fromASTStep]; exact h x (by simp [optVars, valueVars])
+      | obj fs loc =>
+        simp only [fromASTStep]
+        have : ∀ fields : List InputFieldS,
+            fields.filterMap (fun fl => fieldEntry fl (f fl.type (litLookup fs fl.name))) =
+            fields.filterMap (fun fl => fieldEntry fl (g fl.type (litLookup fs fl.name))) := fun fields =>
+          filterMap_congr' _ _ fields (fun fl _ => by
+            rw [ih _ _ (fun x hx => h x (by
+              cases hl : litLookup fs fl.name with
+              | none => rw [hl] at hx; cases hx
+              | some v =>
+                rw [hl] at hx
+                simp only [optVars, valueVars] at hx ⊢
+                exact valueVars_litLookup hl hx))])
+        simp only [this]
+      | _ => rfl
+
+theorem valueFromASTF_congr (s : Schema) (vars1 vars2 : Vars) :
+    ∀ (n : Nat) (t : GType) (l : Option Value), (∀ x ∈ optVars l, lookupD vars1 x = lookupD vars2 x) →
+      valueFromASTF s vars1 n t l = valueFromASTF s vars2 n t l := by
+  intro n
+  induction n with
+  | zero => intro t l _; rfl
+  | succ n ih => intro t l h; exact fromASTStep_congr s vars1 vars2 _ _ ih t l h
+
+/-- evaluating a literal only looks at the variables it mentions -/
+theorem valueFromAST_congr (s : Schema) (t : GType) (l : Option Value) (vars1 vars2 : Vars)
+    (h : ∀ x ∈ optVars l, lookupD vars1 x = lookupD vars2 x) : valueFromAST s t l vars1 = valueFromAST s t l vars2 :=
+  valueFromASTF_congr s vars1 vars2 _ t l h
+
+/-- `UserOK` holds as soon as the two variable maps agree on the variables the argument list mentions -/
+theorem userOK_of_agree (s : Schema) (vars vars' : Vars) (as : List Argument)
+    (h : ∀ x ∈ argsVars as, lookupD vars' x = lookupD vars x) : UserOK s vars vars' as := by
+  intro a ha _ t
+  apply valueFromAST_congr
+  intro x hx
+  apply h
+  simp only [argsVars, List.mem_flatMap]
+  exact ⟨a, ha, hx⟩
 
 end GqlModel.Normalize
